@@ -594,12 +594,13 @@ pub fn soak_scenario(spec: &SoloSpec, seed: u64, k: u64) -> Scenario {
         config = Config::default_for(config.protocol);
     }
     if k % 8 == 3 {
-        // marathon: one large pickle, then more than two thousand small ones on the same generator
+        // marathon: one large pickle (> 64 KiB), then more than two thousand small ones on the same generator
         // without explicit resets (periodic housekeeping - buffer trimming every 2^10 calls, counters
         // that wrap - only shows after thousands of calls and only when sizes differ a lot)
         let mut config = Config::default_for(config.protocol);
-        config.min_opcodes = 3_000;
-        config.max_opcodes = 4_000;
+        // large enough for an output beyond 64 KiB (buffer-size classes of housekeeping code)
+        config.min_opcodes = 9_000;
+        config.max_opcodes = 10_000;
         let calls = rng.random_range(2_100..2_400usize);
         let mut history = Vec::with_capacity(calls + 4);
         history.push(HOp::Gen(Entropy::Rand(rng.random::<u64>() >> 8)));
@@ -607,7 +608,7 @@ pub fn soak_scenario(spec: &SoloSpec, seed: u64, k: u64) -> Scenario {
         for _ in 0..calls {
             history.push(HOp::Gen(Entropy::Rand(rng.random::<u64>() >> 8)));
         }
-        let faults = vec![desc::Fault { kind: "hist", at: calls, detail: format!("marathon: one 3000-4000 opcode pickle, then {} small generation calls on the same generator", calls) }];
+        let faults = vec![desc::Fault { kind: "hist", at: calls, detail: format!("marathon: one 9000-10000 opcode pickle, then {} small generation calls on the same generator", calls) }];
         return Scenario { config, hash_key: rng.random(), history, faults, steer: None };
     }
     let calls = rng.random_range(120..400);
@@ -713,21 +714,41 @@ pub fn pairflat_count(spec: &SoloSpec, tier: Tier) -> u64 {
 pub fn bigcontainer_count(spec: &SoloSpec, tier: Tier) -> u64 {
     match (spec.prop, tier) {
         ("C14", _) | ("C15", _) | ("C16", _) | ("C08", _) => 0,
-        (_, Tier::Quick) => (BIG_BUILDERS.len() * 3 * 64) as u64,
-        (_, Tier::Thorough) => (BIG_BUILDERS.len() * 3 * 64 * 3) as u64,
+        (_, Tier::Quick) => (BIG_BUILDERS.len() * 3 * 64 * 2) as u64,
+        (_, Tier::Thorough) => (BIG_BUILDERS.len() * 3 * 64 * 6) as u64,
     }
 }
 
 const BIG_BUILDERS: [(&str, u8, usize); 5] = [("LIST", 0, 1), ("TUPLE", 2, 1), ("DICT", 0, 2), ("FROZENSET", 4, 1), ("LIST", 5, 1)];
 const BIG_SIZES: [usize; 3] = [260, 1_030, 4_100];
 
+/// the steered program of a container with one deviating member: a callable and an argument tuple
+/// below the MARK, then 31 x (text, None) and one (None, None), and the collecting opcode - for DICT
+/// that is 32 entries of which 31 have string keys and one a None key (a check that samples "the
+/// first few" members in iteration order sees the deviator in some instances and not in others)
+pub fn mixed_container_ops(builder: &str, p: u8) -> Vec<String> {
+    let text = if p == 0 { "UNICODE" } else { "BINUNICODE" };
+    vec!["GLOBAL".to_string(), "EMPTY_TUPLE".to_string(), "MARK".to_string(), format!("({text} NONE)*31"), "NONE".to_string(), "NONE".to_string(), builder.to_string()]
+}
+
 fn bigcontainer_scenario(k: u64) -> Scenario {
     let b = (k % 64) as u8;
     let r = (k / 64) as usize;
-    let size = BIG_SIZES[r % 3];
     let (builder, p, per) = BIG_BUILDERS[(r / 3) % BIG_BUILDERS.len()];
+    let round = r / (3 * BIG_BUILDERS.len());
+    if r % 3 == 0 && round % 2 == 1 {
+        // every other round the smallest size is replaced by the mixed-kind container (members of
+        // two kinds: checks that look at "the first few" or at one representative member)
+        let ops = mixed_container_ops(builder, p);
+        let n = crate::synth::token_ops(&ops) + 1;
+        let mut sc = Scenario::solo(tree_config(p, n), Entropy::Bytes(vec![]));
+        sc.steer = Some(desc::Steer { ops, tail: Some(b), free: None });
+        sc.faults.push(desc::Fault { kind: "steered", at: 0, detail: format!("callable, (), MARK, 31 x (text None), None None, {} (container with one deviating member on top), then choice byte 0x{:02x}", builder, b) });
+        return sc;
+    }
+    let size = BIG_SIZES[r % 3];
     // thorough: the same with the other plain pushes
-    let push = ["NONE", "EMPTY_TUPLE", "EMPTY_LIST"][(r / (3 * BIG_BUILDERS.len())) % 3];
+    let push = ["NONE", "EMPTY_TUPLE", "EMPTY_LIST"][(round / 2) % 3];
     let ops = vec!["MARK".to_string(), format!("{}*{}", push, size * per), builder.to_string()];
     let n = 2 + size * per + 1;
     let mut sc = Scenario::solo(tree_config(p, n), Entropy::Bytes(vec![]));
@@ -2188,12 +2209,39 @@ pub fn evaluate_any(prop: &str, sc: &Scenario, recs: &[CallRecord], st: &mut Sta
     }
 }
 
+/// rough cost of executing a scenario: opcodes requested over all generation calls, with the range
+/// in force for each call (quadratic for long calls: the generator's own cost grows with the stack)
+pub fn estimated_cost(sc: &Scenario) -> u64 {
+    let (mut lo, mut hi) = (sc.config.min_opcodes, sc.config.max_opcodes);
+    let mut cost = 0u64;
+    for h in &sc.history {
+        match h {
+            HOp::SetRange(a, b) => {
+                lo = *a;
+                hi = *b;
+            }
+            HOp::Gen(_) => {
+                let n = lo.max(hi) as u64;
+                cost += n + n * n / 4096;
+            }
+            _ => {}
+        }
+    }
+    cost
+}
+
 pub fn minimise(prop: &str, sc: &Scenario, class: &str, trace: Trace, spy: bool, budget: usize, wall_s: f64) -> (Scenario, usize) {
     let t0 = Instant::now();
     let mut best = sc.clone();
     let mut tries = 0usize;
+    // a candidate must not be much more expensive than what it simplifies (dropping a "set the
+    // range back" operation from a long history would turn thousands of small calls into huge ones)
+    let cost_cap = estimated_cost(sc) * 3 + 100_000;
     let ok = |cand: &Scenario, tries: &mut usize| -> bool {
         if *tries >= budget || t0.elapsed().as_secs_f64() > wall_s {
+            return false;
+        }
+        if estimated_cost(cand) > cost_cap {
             return false;
         }
         *tries += 1;
